@@ -40,7 +40,7 @@ def project(rows, types):
 
 PROBES_BY = {
     "C13": ["ops", "reads", "chunked_reads", "multi_chunk_reads", "appends", "finalized", "buffer_flushes", "caller_reused_its_object", "dictionary_typed_parquet", "parquet_from_sliced_frame", "interleaved_iterators"],
-    "C14": ["ops", "merges", "tie_merges", "sortedness_faults", "abandoned_merges", "merges_with_projection", "projection_moves_score_column"],
+    "C14": ["ops", "merges", "tie_merges", "sortedness_faults", "abandoned_merges", "merges_with_projection", "projection_moves_score_column", "tiny_sortedness_faults"],
 }
 
 STATE = {"failed": None, "examples": 0, "digests": set(), "stats": Counter(), "kinds": set(), "max_ops": 0, "process_ops": []}
@@ -189,10 +189,10 @@ def make_machine(which, base_dir):
 
             @precondition(lambda self: any(t["kind"] == "run" for t in self.world.tables.values()))
             @rule(data=st.data(), run_index=st.integers(0, 7), i=st.integers(0, 39), j=st.integers(0, 39),
-                  reader_chunk=st.sampled_from([1, 2, 5, 1000]))
-            def unsorted_fault(self, data, run_index, i, j, reader_chunk):
+                  reader_chunk=st.sampled_from([1, 2, 5, 1000]), tiny=st.sampled_from([False, False, True]))
+            def unsorted_fault(self, data, run_index, i, j, reader_chunk, tiny):
                 self._do("unsorted_fault", group=data.draw(st.sampled_from(self._groups())), run_index=run_index, i=i, j=j,
-                         reader_chunk=reader_chunk)
+                         reader_chunk=reader_chunk, tiny=tiny)
 
     Machine.__name__ = f"Tab{which}Machine"
     return Machine
